@@ -311,6 +311,26 @@ def main(pid, tier, seed):
                                 'lines2': [I(x) for x in (outs[1] if mode == 'random_walk' else outs[0])],
                                 'inlang': [x in lang for x in outs[0]], 'markov': [False for x in outs[0]], 'ended': True})
                 meta[tid] = {'mode': mode, 'N': N, 'got': len(outs[0]), 'ruleset': desc['base'], 'via': 'HoneywordSession.run'}
+    # a ruleset that is almost all Markov (low coverage): nearly every walk ends in the Markov structure and yields nothing,
+    # the session must keep drawing until it HAS N words (HoneySession.tla: ExactlyN under fairness of the draws)
+    mheavy = os.path.join(work, 'mheavy')
+    rulesets.write_ruleset(mheavy, {'D1': [('1', 0.5), ('2', 0.5)]}, [('M', 0.96875), ('D1', 0.03125)], omen_prob=[(1, 0.5), (2, 0.25)],
+                           omen_keyspace=[(1, 3), (2, 3)])
+    for mode in ('honeywords', 'random_walk'):
+        for N in (60, 150):
+            pc = ptq.load_pcfg(mheavy)
+            lines = []
+            pc.print_guess = lines.append
+            hs = HoneywordSession(pc, mode)
+            with contextlib.redirect_stderr(io.StringIO()):
+                hs.run(limit=N)
+            ids = {}
+            I = lambda x: ids.setdefault(x, len(ids) + 1)
+            tid += 1
+            wtraces.append({'tid': tid, 'kind': 'run', 'n': N, 'lines': [I(x) for x in lines], 'lines2': [I(x) for x in lines],
+                            'inlang': [x in ('1', '2') for x in lines], 'markov': [False for x in lines], 'ended': True})
+            meta[tid] = {'mode': mode, 'N': N, 'got': len(lines), 'ruleset': [['M', 0.96875], ['D1', 0.03125]], 'via': 'HoneywordSession.run',
+                         'check': 'almost every walk ends in the Markov structure'}
     # command line
     rcopy = core.repo_copy('cli')
     jobs = []
